@@ -605,7 +605,7 @@ func TestVerifPipelineCases(t *testing.T) {
 		e := vplSetup(t, g[0].Policy, g[0].Mapping, g[0].Transport)
 		if g[0].Transport == "mux" && g[0].Fresh {
 			// wait for the mux session without making a call: the peer's client side reports it
-			dl := time.Now().Add(8 * time.Second)
+			dl := time.Now().Add(20 * time.Second)
 			for time.Now().Before(dl) && !e.peer.AcceptingOutboundTraffic() {
 				time.Sleep(20 * time.Millisecond)
 			}
